@@ -131,6 +131,7 @@ func c16Gen(rng *verifsim.RNG, idx int, tier string) *Plan {
 	for i, k := 0, rng.Range(0, 6); i < k; i++ {
 		p.Actions = append(p.Actions, rsAction(int64(rng.Dur(0, time.Duration(horizon)))+jitter(rng), hostAddr(rng.Intn(3))))
 	}
+	maybeReinit(rng, p, "eth0", 500*nsMs, horizon, 0.25)
 	p.Horizon = horizon
 	return p
 }
